@@ -30,7 +30,7 @@ import (
 type c11Op struct {
 	kind string // mock | chk | reset
 	f    int
-	rk   string // ret | tab | tin | cb | cbo
+	rk   string // ret | tab | tin | tov | cb | cbo
 	v    int
 	name bool // mock BY NAME: ExportFunc(name).As(sig) instead of Func(value)
 }
@@ -137,7 +137,7 @@ func c11Parse(toks []string) (*c11Round, error) {
 			f, e1 := strconv.Atoi(s[2])
 			v, e2 := strconv.Atoi(s[4])
 			isVar := f >= len(c11Targets) && f < c11SpecBase
-			if e1 != nil || e2 != nil || f < 0 || f >= c11SpecBase+len(c11Special) || (s[3] != "ret" && s[3] != "cb" && s[3] != "cbo" && s[3] != "tab" && s[3] != "tin") ||
+			if e1 != nil || e2 != nil || f < 0 || f >= c11SpecBase+len(c11Special) || (s[3] != "ret" && s[3] != "cb" && s[3] != "cbo" && s[3] != "tab" && s[3] != "tin" && s[3] != "tov") ||
 				(isVar && (s[3] != "tab" || name[0] != 'S' || s[1] != "mock")) ||
 				(f >= c11SpecBase && (s[3] == "cbo" || s[1] != "mock" || (f >= c11SpecBase+4 && s[3] == "cb"))) {
 				return nil, fmt.Errorf("bad mock")
@@ -198,6 +198,8 @@ func (cb *c11B) mock(op c11Op) {
 		m.Return(op.v).When(1).Return(op.v + 1).When(2).Return(op.v + 2)
 	case "tin":
 		m.Return(op.v).In(1, 2).Return(op.v + 5)
+	case "tov": // overlapping conditions: the narrower one is registered first and must keep winning (seed C11-R6-1)
+		m.Return(op.v).When(1).Return(op.v + 1).When(arg.Any()).Return(op.v + 2)
 	case "cb":
 		k := op.v
 		m.Apply(func(a int) int { return a + k })
